@@ -392,3 +392,6 @@ HARNESSES.append(Harness(name="H08-returns-model", scenario=h08_returns_model,
                                  "converters": "Basic, Pydantic, Default"},
                          functions=["converter.py:PydanticConverter.convert_outputs", "converter.py:BasicConverter.convert_outputs"], covers=["model-returned"]))
 ASSUMPTIONS = ["finite combinatorial space enumerated by the solver (selectors); payload values are small ints; no arithmetic insight is claimed"]
+
+from engine.harness import borrowed  # noqa: E402
+HARNESSES.append(borrowed("c18", "H18-collision", "H08-dependency-collision"))   # an entry with no matching payload parameter goes only to the catch-all, never to a dependency parameter
